@@ -2,7 +2,7 @@
    operators (third-party crates `wildcard` and `regex-automata`, modelled by
    their documented behaviour and validated by correspondence; see C11). *)
 From Coq Require Import List ZArith NArith Bool.
-From WF Require Import Base.Bytes.
+From WF Require Import Base.Bytes Lang.Ast Parse.Lex.
 Import ListNotations.
 Open Scope N_scope.
 
@@ -60,8 +60,457 @@ Definition wildcard_compile (limit : option N) (p : bytes) : option (list wtok) 
 Definition wildcard_match (strict : bool) (p v : bytes) : option bool :=
   option_map (fun t => wmatch strict t v) (wparse p).
 
-(* ---- regex (placeholder until the subset matcher of C11 lands): no pattern is
-   in the modelled subset ---- *)
-Definition regex_ast := unit.
-Definition regex_compile (pat : bytes) : option regex_ast := None.
-Definition regex_run (r : regex_ast) (v : bytes) : bool := false.
+(* Wildcard::new with the reason of a rejection (WildcardError variant):
+   InvalidWildcard (syntax error of the wildcard crate) is found first, then
+   TooManyStarMetacharacters, then DoubleStar (validate_wildcard). *)
+Inductive wild_err := WeInvalid | WeTooManyStars | WeDoubleStar.
+
+Definition wildcard_new (limit : option N) (p : bytes) : list wtok + wild_err :=
+  match wparse p with
+  | None => inr WeInvalid
+  | Some t =>
+      if match limit with Some l => N.ltb l (N.of_nat (star_count t)) | None => false end then inr WeTooManyStars
+      else if has_double_star t then inr WeDoubleStar
+      else inl t
+  end.
+
+(* impl LexWith for Wildcard<STRICT>: lex_quoted_or_raw_string, then Wildcard::new;
+   the error span of a rejected pattern is the whole input *)
+Definition wildcard_lex (limit : option N) (input : bytes) : lres (list wtok * (bytes * bytes_format)) :=
+  lbind (lex_quoted_or_raw_string input) (fun pf rest =>
+    match wildcard_new limit (fst pf) with
+    | inl t => LOk (t, pf) rest
+    | inr _ => LErr EParseWildcard input (length input)
+    end).
+
+(* ---- regex: the quoted-literal scanner (rhs_types/regex/mod.rs) ---- *)
+
+(* lex_regex_from_literal, the loop.  [s] is the text after the opening quote,
+   [in_class] the flag `in_char_class`.  Result: the text pushed to `regex_buf`
+   and the input after the closing quote; None = the iterator ran dry
+   (MissingEndingQuote).
+     '\\' => if let Some(c) = iter.next() { if in_char_class || c != '<q>' { push('\\') } push(c) }
+             (a backslash at the very end pushes nothing; the next iteration fails)
+     '<q>' if !in_char_class => break
+     '[' if !in_char_class => in_char_class = true; push
+     ']' if in_char_class => in_char_class = false; push
+     c => push
+   The code iterates over chars; the model over bytes.  On valid UTF-8 (the
+   input is a &str) both agree: the bytes of a multi-byte character are >= 128,
+   so none of them is one of the four special characters, and a character
+   pushed after a backslash is pushed byte by byte. *)
+Fixpoint regex_scan_go (s : bytes) (in_class : bool) : option (bytes * bytes) :=
+  match s with
+  | [] => None
+  | c :: s1 =>
+      if c =? 92 then
+        match s1 with
+        | [] => None
+        | c2 :: s2 =>
+            match regex_scan_go s2 in_class with
+            | Some (p, rest) => Some (if in_class || negb (c2 =? 34) then 92 :: c2 :: p else c2 :: p, rest)
+            | None => None
+            end
+        end
+      else if (c =? 34) && negb in_class then Some ([], s1)
+      else
+        let ic := if (c =? 91) && negb in_class then true
+                  else if (c =? 93) && in_class then false else in_class in
+        match regex_scan_go s1 ic with
+        | Some (p, rest) => Some (c :: p, rest)
+        | None => None
+        end
+  end.
+
+(* [input]: the text after the opening quote; the error span is that text *)
+Definition regex_scan_literal (input : bytes) : lres bytes :=
+  match regex_scan_go input false with
+  | Some (p, rest) => LOk p rest
+  | None => LErr EMissingEndingQuote input (length input)
+  end.
+
+(* impl LexWith for Regex, up to the call of Regex::new: the pattern text that
+   reaches the engine, its RegexFormat (None = Literal, Some n = Raw(n)) and the
+   rest of the input.  A raw string is passed verbatim. *)
+Definition regex_lex_pattern (input : bytes) : lres (bytes * option N) :=
+  match input with
+  | 34 :: r => lmap (fun p => (p, None)) (regex_scan_literal r)
+  | 114 :: r => lmap (fun p => (fst p, Some (snd p))) (lex_raw_string_as_str r)
+  | _ :: _ => LErr EExpectedName input (length input)
+  | [] => LErr EEOF input 0%nat
+  end.
+
+(* ---- regex: abstract syntax of the modelled subset ----
+   Byte-oriented (syntax::Config::new().unicode(false).utf8(false)), default
+   flags (no multi-line, no dot-matches-newline, case sensitive).
+     RSet neg rs : one byte that is (neg = false) / is not (neg = true) in one
+                   of the inclusive ranges rs   (literal, `.`, [..], \d \w \s ..)
+     REps        : the empty string           (empty group / alternative, `x?`)
+     RStart/REnd : `^` / `$` = start / end of the haystack
+     x? = RAlt x REps,  x+ = RSeq x (RStar x); laziness is irrelevant to is_match. *)
+Inductive regex_ast :=
+| RSet (neg : bool) (rs : list (N * N))
+| REps
+| RStart
+| REnd
+| RSeq (a b : regex_ast)
+| RAlt (a b : regex_ast)
+| RStar (a : regex_ast).
+
+Definition RFail : regex_ast := RSet false [].
+Definition RLit (c : N) : regex_ast := RSet false [(c, c)].
+Definition RDot : regex_ast := RSet true [(10, 10)].      (* any byte except \n *)
+Definition ROpt (x : regex_ast) : regex_ast := RAlt x REps.
+Definition RPlus (x : regex_ast) : regex_ast := RSeq x (RStar x).
+
+Definition in_range (c : N) (p : N * N) : bool := (fst p <=? c) && (c <=? snd p).
+Definition set_mem (neg : bool) (rs : list (N * N)) (c : N) : bool :=
+  xorb neg (existsb (in_range c) rs).
+
+(* ---- regex: reference matcher (derivatives with an at-start / at-end context) ---- *)
+
+(* does [r] match the empty string where [s] = <q>nothing precedes<q> and
+   [e] = <q>nothing follows<q> in the haystack *)
+Fixpoint rx_nullable (s e : bool) (r : regex_ast) : bool :=
+  match r with
+  | RSet _ _ => false
+  | REps => true
+  | RStart => s
+  | REnd => e
+  | RSeq a b => rx_nullable s e a && rx_nullable s e b
+  | RAlt a b => rx_nullable s e a || rx_nullable s e b
+  | RStar _ => true
+  end.
+
+Definition rx_is_fail (r : regex_ast) : bool :=
+  match r with RSet false [] => true | _ => false end.
+
+Fixpoint rx_eqb (a b : regex_ast) : bool :=
+  match a, b with
+  | RSet n1 r1, RSet n2 r2 =>
+      Bool.eqb n1 n2 && list_eqb (fun p q => (fst p =? fst q) && (snd p =? snd q)) r1 r2
+  | REps, REps | RStart, RStart | REnd, REnd => true
+  | RSeq a1 b1, RSeq a2 b2 | RAlt a1 b1, RAlt a2 b2 => rx_eqb a1 a2 && rx_eqb b1 b2
+  | RStar a1, RStar a2 => rx_eqb a1 a2
+  | _, _ => false
+  end.
+
+(* smart constructors: they only prune (keep the derivatives small) *)
+Definition rx_seq (a b : regex_ast) : regex_ast :=
+  if rx_is_fail a then RFail
+  else match a with REps => b | _ => RSeq a b end.
+Definition rx_alt (a b : regex_ast) : regex_ast :=
+  if rx_is_fail a then b else if rx_is_fail b then a
+  else if rx_eqb a b then a else RAlt a b.
+
+(* the residual of [r] after the byte [c]; [s] = <q>nothing precedes c<q> *)
+Fixpoint rx_deriv (s : bool) (c : N) (r : regex_ast) : regex_ast :=
+  match r with
+  | RSet neg rs => if set_mem neg rs c then REps else RFail
+  | REps | RStart | REnd => RFail
+  | RSeq a b =>
+      rx_alt (rx_seq (rx_deriv s c a) b)
+             (if rx_nullable s false a then rx_deriv s c b else RFail)
+  | RAlt a b => rx_alt (rx_deriv s c a) (rx_deriv s c b)
+  | RStar a => rx_seq (rx_deriv s c a) (RStar a)
+  end.
+
+(* some prefix of [rest] matches [r]; [s] = <q>rest is the whole haystack<q> *)
+Fixpoint rx_prefix (s : bool) (r : regex_ast) (rest : bytes) : bool :=
+  rx_nullable s (match rest with [] => true | _ => false end) r
+  || match rest with
+     | [] => false
+     | c :: rest' => rx_prefix false (rx_deriv s c r) rest'
+     end.
+
+(* some substring of the haystack matches: try every start position *)
+Fixpoint rx_search (s : bool) (r : regex_ast) (rest : bytes) : bool :=
+  rx_prefix s r rest
+  || match rest with
+     | [] => false
+     | _ :: rest' => rx_search false r rest'
+     end.
+
+(* meta::Regex::is_match: unanchored search over the raw bytes *)
+Definition regex_run (r : regex_ast) (v : bytes) : bool := rx_search true r v.
+
+(* ---- regex: parser of the subset (a model of regex-syntax 0.8's ast::parse
+   followed by hir::translate for the constructs below; everything else is
+   <q>outside the subset<q>).
+
+   Inside: ASCII pattern text; literals (every character that is not one of
+   \ . + * ? ( ) | [ { ^ $ ; note that ] and } are literals outside a class);
+   `.`; `^` `$`; groups `( )` and `(?: )`; alternation; `? * +` with an
+   optional lazy `?`; bracket classes `[..]`, `[^..]` with single members,
+   ranges a-z, a leading `]`, leading `-`s, a `-` before the closing bracket,
+   escaped members; escapes \xHH, \a \f \t \n \r \v, \d \s \w \D \S \W, a
+   backslash before any ASCII punctuation except < >.
+   Invalid (regex-syntax reports an error): unbalanced ( ) [, a repetition
+   operator with nothing to repeat, a backslash at the end, \0..\9, a
+   backslash before an unassigned letter, \x without two hex digits, a
+   reversed range, a class escape as a range endpoint.
+   Outside: non-ASCII text, `{`, `(?` other than `(?:`, \A \z \b \B \< \> \p \P
+   \u \U \x{..}, nested classes / [:name:] / && -- ~~ inside a class, patterns
+   longer than 200 bytes (nest limit). *)
+Inductive rx_outcome := RxOk (r : regex_ast) | RxInvalid | RxOutside.
+
+Inductive rx_esc := EscLit (b : N) (n : nat) | EscSet (rs : list (N * N)) (n : nat) | EscInvalid | EscOutside.
+
+Definition is_alpha (c : N) : bool := ((65 <=? c) && (c <=? 90)) || ((97 <=? c) && (c <=? 122)).
+
+Definition perl_d : list (N * N) := [(48, 57)].
+Definition perl_s : list (N * N) := [(9, 13); (32, 32)].
+Definition perl_w : list (N * N) := [(48, 57); (65, 90); (95, 95); (97, 122)].
+Definition perl_D : list (N * N) := [(0, 47); (58, 255)].
+Definition perl_S : list (N * N) := [(0, 8); (14, 31); (33, 255)].
+Definition perl_W : list (N * N) := [(0, 47); (58, 64); (91, 94); (96, 96); (123, 255)].
+
+(* parse_escape: [s] is the text after the backslash; n = characters consumed after it *)
+Definition rx_escape (s : bytes) : rx_esc :=
+  match s with
+  | [] => EscInvalid
+  | c :: r =>
+      if 128 <=? c then EscOutside
+      else if is_digit c then EscInvalid
+      else if c =? 120 then                                   (* x *)
+        match r with
+        | [] => EscInvalid
+        | h1 :: r1 =>
+            if h1 =? 123 then EscOutside
+            else if negb (is_hexdigit h1) then EscInvalid
+            else match r1 with
+                 | [] => EscInvalid
+                 | h2 :: _ => if is_hexdigit h2 then EscLit (16 * hexval h1 + hexval h2) 3 else EscInvalid
+                 end
+        end
+      else if (c =? 117) || (c =? 85) || (c =? 112) || (c =? 80) then EscOutside     (* u U p P *)
+      else if c =? 100 then EscSet perl_d 1
+      else if c =? 115 then EscSet perl_s 1
+      else if c =? 119 then EscSet perl_w 1
+      else if c =? 68 then EscSet perl_D 1
+      else if c =? 83 then EscSet perl_S 1
+      else if c =? 87 then EscSet perl_W 1
+      else if (c =? 60) || (c =? 62) then EscOutside                                  (* < > *)
+      else if negb (is_alpha c) then EscLit c 1              (* meta or escapeable punctuation *)
+      else if c =? 97 then EscLit 7 1
+      else if c =? 102 then EscLit 12 1
+      else if c =? 116 then EscLit 9 1
+      else if c =? 110 then EscLit 10 1
+      else if c =? 114 then EscLit 13 1
+      else if c =? 118 then EscLit 11 1
+      else if (c =? 65) || (c =? 122) || (c =? 98) || (c =? 66) then EscOutside       (* A z b B *)
+      else EscInvalid
+  end.
+
+(* parse_set_class_item: [c] is the current character, [r] what follows;
+   n = characters consumed including c *)
+Definition class_prim (c : N) (r : bytes) : rx_esc :=
+  if c =? 92 then
+    match rx_escape r with
+    | EscLit b n => EscLit b (S n)
+    | EscSet rs n => EscSet rs (S n)
+    | e => e
+    end
+  else EscLit c 1.
+
+Inductive cls_res := ClsOk (rs : list (N * N)) (consumed : nat) | ClsInvalid | ClsOutside.
+
+Definition next_is (c : N) (r : bytes) : bool := match r with x :: _ => x =? c | [] => false end.
+
+(* the loop of parse_set_class after the opening: [skip] characters still
+   belong to the previous item, [n] counts the characters consumed so far *)
+Fixpoint rx_class_items (s : bytes) (skip n : nat) (acc : list (N * N)) : cls_res :=
+  match s with
+  | [] => ClsInvalid                                          (* ClassUnclosed *)
+  | c :: r =>
+      match skip with
+      | S k => rx_class_items r k (S n) acc
+      | O =>
+          if c =? 93 then ClsOk acc (S n)
+          else if c =? 91 then ClsOutside
+          else if ((c =? 38) && next_is 38 r) || ((c =? 45) && next_is 45 r) || ((c =? 126) && next_is 126 r)
+          then ClsOutside
+          else
+            match class_prim c r with
+            | EscInvalid => ClsInvalid
+            | EscOutside => ClsOutside
+            | EscLit b1 l1 =>
+                match skipn (l1 - 1) r with
+                | [] => ClsInvalid
+                | 45 :: after =>
+                    match after with
+                    | [] => ClsInvalid
+                    | c2 :: r2 =>
+                        if (c2 =? 93) || (c2 =? 45) then rx_class_items r (l1 - 1) (S n) ((b1, b1) :: acc)
+                        else
+                          match class_prim c2 r2 with
+                          | EscLit b2 l2 =>
+                              if b1 <=? b2 then rx_class_items r (l1 + l2) (S n) ((b1, b2) :: acc)
+                              else ClsInvalid                 (* ClassRangeInvalid *)
+                          | EscSet _ _ => ClsInvalid          (* ClassRangeLiteral *)
+                          | EscInvalid => ClsInvalid
+                          | EscOutside => ClsOutside
+                          end
+                    end
+                | _ => rx_class_items r (l1 - 1) (S n) ((b1, b1) :: acc)
+                end
+            | EscSet rs l1 =>
+                match skipn (l1 - 1) r with
+                | [] => ClsInvalid
+                | 45 :: after =>
+                    match after with
+                    | [] => ClsInvalid
+                    | c2 :: _ =>
+                        if (c2 =? 93) || (c2 =? 45) then rx_class_items r (l1 - 1) (S n) (rs ++ acc)
+                        else ClsInvalid                       (* ClassRangeLiteral *)
+                    end
+                | _ => rx_class_items r (l1 - 1) (S n) (rs ++ acc)
+                end
+            end
+      end
+  end.
+
+Fixpoint count_leading (c : N) (s : bytes) : nat :=
+  match s with x :: r => if x =? c then S (count_leading c r) else O | [] => O end.
+
+(* parse_set_class_open + parse_set_class: [s] is the text after `[`.
+   Result: negation, ranges, characters consumed after `[` (closing bracket included). *)
+Definition rx_class (s : bytes) : bool * cls_res :=
+  let neg := next_is 94 s in
+  let s1 := if neg then skipn 1 s else s in
+  let n1 := if neg then 1%nat else 0%nat in
+  let k := count_leading 45 s1 in                             (* any number of leading `-` *)
+  let s2 := skipn k s1 in
+  let acc := match k with O => [] | _ => [(45, 45)] end in
+  match k, s2 with
+  | O, 93 :: s3 => (neg, rx_class_items s3 0 (n1 + 1) [(93, 93)])   (* a first `]` is a literal *)
+  | _, _ => (neg, rx_class_items s2 0 (n1 + k) acc)
+  end.
+
+(* one open group (or the top level): finished alternatives and the items of
+   the current concatenation, both reversed *)
+Record rx_frame := { fr_alts : list regex_ast; fr_items : list regex_ast }.
+Definition rx_frame0 : rx_frame := {| fr_alts := []; fr_items := [] |}.
+
+Fixpoint rx_concat (l : list regex_ast) : regex_ast :=
+  match l with
+  | [] => REps
+  | [x] => x
+  | x :: r => RSeq x (rx_concat r)
+  end.
+Fixpoint rx_alts (l : list regex_ast) : regex_ast :=
+  match l with
+  | [] => REps
+  | [x] => x
+  | x :: r => RAlt x (rx_alts r)
+  end.
+Definition rx_close (f : rx_frame) : regex_ast :=
+  rx_alts (rev (rx_concat (rev (fr_items f)) :: fr_alts f)).
+Definition rx_push (x : regex_ast) (f : rx_frame) : rx_frame :=
+  {| fr_alts := fr_alts f; fr_items := x :: fr_items f |}.
+
+Inductive rx_step_res := StOk (cur : rx_frame) (stack : list rx_frame) (skip : nat) | StInvalid | StOutside.
+
+(* one iteration of the loop of parse_with_comments at character [c] *)
+Definition rx_step (c : N) (rest : bytes) (cur : rx_frame) (stack : list rx_frame) : rx_step_res :=
+  if c =? 40 then                                             (* ( *)
+    match rest with
+    | 63 :: 58 :: _ => StOk rx_frame0 (cur :: stack) 2        (* (?: *)
+    | 63 :: _ => StOutside
+    | _ => StOk rx_frame0 (cur :: stack) 0
+    end
+  else if c =? 41 then                                        (* ) *)
+    match stack with
+    | [] => StInvalid                                         (* GroupUnopened *)
+    | parent :: stack' => StOk (rx_push (rx_close cur) parent) stack' 0
+    end
+  else if c =? 124 then                                       (* | *)
+    StOk {| fr_alts := rx_concat (rev (fr_items cur)) :: fr_alts cur; fr_items := [] |} stack 0
+  else if (c =? 42) || (c =? 43) || (c =? 63) then            (* * + ? *)
+    match fr_items cur with
+    | [] => StInvalid                                         (* RepetitionMissing *)
+    | x :: items =>
+        let q := if c =? 42 then RStar x else if c =? 43 then RPlus x else ROpt x in
+        StOk {| fr_alts := fr_alts cur; fr_items := q :: items |} stack
+             (if next_is 63 rest then 1%nat else 0%nat)       (* lazy marker *)
+    end
+  else if c =? 123 then StOutside                             (* { *)
+  else if c =? 91 then                                        (* [ *)
+    match rx_class rest with
+    | (neg, ClsOk rs n) => StOk (rx_push (RSet neg rs) cur) stack n
+    | (_, ClsOutside) => StOutside
+    | _ => StInvalid
+    end
+  else if c =? 46 then StOk (rx_push RDot cur) stack 0
+  else if c =? 94 then StOk (rx_push RStart cur) stack 0
+  else if c =? 36 then StOk (rx_push REnd cur) stack 0
+  else if c =? 92 then
+    match rx_escape rest with
+    | EscLit b n => StOk (rx_push (RLit b) cur) stack n
+    | EscSet rs n => StOk (rx_push (RSet false rs) cur) stack n
+    | EscInvalid => StInvalid
+    | EscOutside => StOutside
+    end
+  else StOk (rx_push (RLit c) cur) stack 0.
+
+Fixpoint rx_loop (p : bytes) (skip : nat) (cur : rx_frame) (stack : list rx_frame) : rx_outcome :=
+  match p with
+  | [] => match stack with [] => RxOk (rx_close cur) | _ => RxInvalid end   (* GroupUnclosed *)
+  | c :: rest =>
+      match skip with
+      | S k => rx_loop rest k cur stack
+      | O =>
+          match rx_step c rest cur stack with
+          | StOk cur' stack' skip' => rx_loop rest skip' cur' stack'
+          | StInvalid => RxInvalid
+          | StOutside => RxOutside
+          end
+      end
+  end.
+
+Definition regex_parse (pat : bytes) : rx_outcome :=
+  if existsb (fun b => 128 <=? b) pat || Nat.ltb 200 (length pat) then RxOutside
+  else rx_loop pat 0 rx_frame0 [].
+
+Definition regex_compile (pat : bytes) : option regex_ast :=
+  match regex_parse pat with RxOk r => Some r | _ => None end.
+
+(* ---- regex: the size limit (meta::Config nfa_size_limit = dfa_size_limit =
+   ParserSettings::regex_compiled_size_limit) ----
+   The compiled size is a property of regex-automata's NFA compiler, which is
+   not modelled.  What the model states (and the correspondence validates):
+   patterns of the subset (at most 200 bytes, no counted repetition) fit in
+   2^20 bytes; with a limit of at most 16 bytes every pattern for which an NFA
+   is built is rejected (CompiledTooBig).  meta::strategy::new builds no NFA
+   when the pattern is equivalent to a finite set of literals without
+   look-around and capture groups (Pre::from_prefixes); a pattern with an
+   anchor (and no dead part that could make the anchor disappear) certainly
+   gets an NFA; for the others either answer is possible. *)
+Inductive size_verdict := SzFits | SzTooBig | SzEither | SzUnmodelled.
+
+Fixpoint rx_has_anchor (r : regex_ast) : bool :=
+  match r with
+  | RStart | REnd => true
+  | RSet _ _ | REps => false
+  | RSeq a b | RAlt a b => rx_has_anchor a || rx_has_anchor b
+  | RStar a => rx_has_anchor a
+  end.
+
+Definition all_bytes : bytes := map N.of_nat (seq 0 256).
+
+Fixpoint rx_has_empty_set (r : regex_ast) : bool :=
+  match r with
+  | RSet neg rs => negb (existsb (set_mem neg rs) all_bytes)
+  | REps | RStart | REnd => false
+  | RSeq a b | RAlt a b => rx_has_empty_set a || rx_has_empty_set b
+  | RStar a => rx_has_empty_set a
+  end.
+
+Definition regex_size_verdict (limit : option N) (r : regex_ast) : size_verdict :=
+  match limit with
+  | None => SzFits                                            (* default: 10 MiB *)
+  | Some l =>
+      if 1048576 <=? l then SzFits
+      else if l <=? 16 then (if rx_has_anchor r && negb (rx_has_empty_set r) then SzTooBig else SzEither)
+      else SzUnmodelled
+  end.
